@@ -7,6 +7,7 @@ import (
 	"context"
 	"encoding/json"
 	"fmt"
+	"math"
 	"runtime"
 	"sort"
 	"strings"
@@ -304,20 +305,21 @@ func (l *yieldListener) OnDropped()    { l.inner.OnDropped(); l.s.Point("inner.c
 
 // StackCfg describes a limiter stack (JSON-serialisable).
 type StackCfg struct {
-	Kind       string `json:"kind"`               // default | blocking | deadline | queue | fifo-dep | lifo-dep | pool | fixedpool
-	Strategy   string `json:"strategy,omitempty"` // simple | precise | lookup | predicate
-	Limit      int    `json:"limit"`
-	Ordering   string `json:"ordering,omitempty"` // queue: fifo | lifo | "" ; pools: random | fifo | lifo
-	Backlog    int    `json:"backlog,omitempty"`
-	TimeoutMs  int    `json:"timeout_ms,omitempty"`
-	Evict      bool   `json:"evict,omitempty"`
-	DeadlineMs int    `json:"deadline_ms,omitempty"`
-	TimeoutNs  int64  `json:"timeout_ns,omitempty"`  // overrides TimeoutMs when non-zero
-	DeadlineNs int64  `json:"deadline_ns,omitempty"` // overrides DeadlineMs when non-zero
-	WinNs      int64  `json:"win_ns,omitempty"`      // DefaultLimiter window time (min=max); default 1 ms
-	SlowUs     int    `json:"slow_us,omitempty"`     // real-clock runs only: the delegate sleeps that long in every third Acquire
-	Inject     bool   `json:"inject,omitempty"`      // wrap the delegate with schedule points
-	Defaults   bool   `json:"defaults,omitempty"`    // use the ...WithDefaults constructor (queue kinds)
+	Kind        string `json:"kind"`               // default | blocking | deadline | queue | fifo-dep | lifo-dep | pool | fixedpool
+	Strategy    string `json:"strategy,omitempty"` // simple | precise | lookup | predicate
+	Limit       int    `json:"limit"`
+	Ordering    string `json:"ordering,omitempty"` // queue: fifo | lifo | "" ; pools: random | fifo | lifo
+	Backlog     int    `json:"backlog,omitempty"`
+	TimeoutMs   int    `json:"timeout_ms,omitempty"`
+	Evict       bool   `json:"evict,omitempty"`
+	DeadlineMs  int    `json:"deadline_ms,omitempty"`
+	TimeoutNs   int64  `json:"timeout_ns,omitempty"`   // overrides TimeoutMs when non-zero
+	DeadlineNs  int64  `json:"deadline_ns,omitempty"`  // overrides DeadlineMs when non-zero
+	DeadlineFar int    `json:"deadline_far,omitempty"` // deadline limiter: a deadline far in the future: 1 = t0 + MaxInt64 ns, 2 = year 2500, 3 = year 9999 (overrides the others)
+	WinNs       int64  `json:"win_ns,omitempty"`       // DefaultLimiter window time (min=max); default 1 ms
+	SlowUs      int    `json:"slow_us,omitempty"`      // real-clock runs only: the delegate sleeps that long in every third Acquire
+	Inject      bool   `json:"inject,omitempty"`       // wrap the delegate with schedule points
+	Defaults    bool   `json:"defaults,omitempty"`     // use the ...WithDefaults constructor (queue kinds)
 }
 
 type stack struct {
@@ -397,8 +399,11 @@ func buildStack(cfg StackCfg, lim core.Limit, sc *sched, t0 time.Time) (*stack, 
 	s := &stack{cfg: cfg, reg: newRecRegistry()}
 	if cfg.Kind == "fixedpool" {
 		ord := map[string]pool.Ordering{"random": pool.OrderingRandom, "fifo": pool.OrderingFIFO, "lifo": pool.OrderingLIFO}[cfg.Ordering]
-		p, err := pool.NewFixedPool("p", ord, cfg.Limit, 10, time.Millisecond, time.Millisecond, 0, cfg.Backlog,
-			time.Duration(cfg.TimeoutMs)*time.Millisecond, nil, s.reg)
+		timeout := time.Duration(cfg.TimeoutMs) * time.Millisecond
+		if cfg.TimeoutNs != 0 {
+			timeout = time.Duration(cfg.TimeoutNs)
+		}
+		p, err := pool.NewFixedPool("p", ord, cfg.Limit, 10, time.Millisecond, time.Millisecond, 0, cfg.Backlog, timeout, nil, s.reg)
 		if err != nil {
 			return nil, err
 		}
@@ -468,6 +473,14 @@ func buildStack(cfg StackCfg, lim core.Limit, sc *sched, t0 time.Time) (*stack, 
 	deadline := t0.Add(time.Duration(cfg.DeadlineMs) * time.Millisecond)
 	if cfg.DeadlineNs != 0 {
 		deadline = t0.Add(time.Duration(cfg.DeadlineNs))
+	}
+	switch cfg.DeadlineFar {
+	case 1:
+		deadline = t0.Add(time.Duration(math.MaxInt64))
+	case 2:
+		deadline = time.Date(2500, 1, 1, 0, 0, 0, 0, time.UTC)
+	case 3:
+		deadline = time.Date(9999, 12, 31, 23, 59, 59, 0, time.UTC)
 	}
 	qcfg := func(o limiter.QueueOrdering) limiter.QueueLimiterConfig {
 		return limiter.QueueLimiterConfig{Ordering: o, MaxBacklogSize: cfg.Backlog, MaxBacklogTimeout: timeout,
